@@ -316,11 +316,19 @@ theorem exec_unawareNext (cfg : Cfg) (st : St) (u : Nat) (nodes : List Int) (h :
 
 theorem exec_issueSlot (cfg : Cfg) (st : St) (s j : Nat) (h : SInv st) : SInv (exec cfg st (.issueSlot s j)).1 := by
   simp only [exec]
-  repeat' split
-  all_goals (try dsimp only)
-  all_goals (first
-    | exact h
-    | (rename_i hg; exact SInv_of_core (exec_makeRequest_site cfg _ _ _ _ _ _ (SInv_of_core h (core_getBrokerClient hg))) (core_setSend _ _ _)))
+  split
+  · exact h
+  · split
+    · split
+      · exact h
+      · split
+        · exact h
+        · rename_i hg
+          split
+          · exact SInv_of_core h (core_getBrokerClient hg)
+          · dsimp only
+            exact SInv_of_core (exec_makeRequest_site cfg _ _ _ _ _ _ (SInv_of_core h (core_getBrokerClient hg))) (core_setSend _ _ _)
+    · exact h
 
 theorem exec_srtcGo (cfg : Cfg) (st : St) (r : Nat) (h : SInv st) : SInv (exec cfg st (.srtcGo r)).1 := by
   simp only [exec]
@@ -712,19 +720,26 @@ theorem exec_timers (cfg : Cfg) (h0 : 0 ≤ cfg.timeout) (st : St) (a : Act) :
               · right; rw [← g1]; exact h
     case issueSlot s j =>
       simp only [exec]
-      repeat' split
-      all_goals (try dsimp only)
-      all_goals (first
-        | exact ⟨rfl, fun t ht => Or.inl ht⟩
-        | (rename_i xx st1 b obs1 hg
-           obtain ⟨g1, g2⟩ := hgb hg
-           refine ⟨?_, fun t ht => ?_⟩
-           · simp only [setSend_now, setSrtc_now]
-             exact (hmr _ _ _ _ _ _).1.trans g1
-           · simp only [setSend_timers, setSrtc_timers] at ht
-             rcases (hmr _ _ _ _ _ _).2 t ht with h | h
-             · left; rw [← g2]; exact h
-             · right; rw [← g1]; exact h))
+      split
+      · exact ⟨rfl, fun t ht => Or.inl ht⟩
+      · split
+        · split
+          · exact ⟨rfl, fun t ht => Or.inl ht⟩
+          · split
+            · exact ⟨rfl, fun t ht => Or.inl ht⟩
+            · rename_i xx st1 b obs1 hg
+              obtain ⟨g1, g2⟩ := hgb hg
+              split
+              · exact ⟨g1, fun t ht => Or.inl (g2 ▸ ht)⟩
+              · dsimp only
+                refine ⟨?_, fun t ht => ?_⟩
+                · simp only [setSend_now]
+                  exact (hmr _ _ _ _ _ _).1.trans g1
+                · simp only [setSend_timers] at ht
+                  rcases (hmr _ _ _ _ _ _).2 t ht with h | h
+                  · left; rw [← g2]; exact h
+                  · right; rw [← g1]; exact h
+        · exact ⟨rfl, fun t ht => Or.inl ht⟩
     case srtcGo r =>
       simp only [exec]
       repeat' split
